@@ -15,6 +15,12 @@ Definition noise_interp (min_dx : Qc) (fv ys : list Qc) (f : Qc) : Qc :=
   | None => 0%Qc
   end.
 
+(* the MIN_DX test of _vnacommon_spline_calc on the knots (SplineModel.spline_calc: some hp[i] < MIN_DX
+   -> EINVAL): what C18MErrorModel.en_gaps_ok stands for *)
+Definition q_gaps_ok (min_dx : Qc) (fv : list Qc) : bool :=
+  let n := (Z.of_nat (length fv) - 1)%Z in
+  negb (existsb (fun i => Qcltb (hp fv i) min_dx) (zrange (Z.to_nat n) 0)).
+
 (* vnacal_new_set_m_error over the rationals with the real order and the spline *)
 Definition q_values_at (min_dx : Qc) := values_at Qc 0%Qc (noise_interp min_dx).
 Definition q_lower (min_dx : Qc) := lower Qc 0%Qc Qcleb Qcltb (noise_interp min_dx).
